@@ -1,1 +1,368 @@
-//! Raw quinn endpoints with hand-built rustls configurations.
+//! Raw quinn endpoints on the fabric with hand-built rustls configurations: certificates and
+//! keys without consistency checks, arbitrary SNI, recording verifiers, raw stream access.
+
+use super::fabric::Fabric;
+use rustls::client::danger::{HandshakeSignatureValid, ServerCertVerified, ServerCertVerifier};
+use rustls::pki_types::{CertificateDer, PrivateKeyDer, ServerName, UnixTime};
+use rustls::server::danger::{ClientCertVerified, ClientCertVerifier};
+use rustls::sign::{CertifiedKey, Signer, SigningKey};
+use rustls::{DigitallySignedStruct, DistinguishedName, SignatureAlgorithm, SignatureScheme};
+use serde::{Deserialize, Serialize};
+use std::net::SocketAddr;
+use std::sync::{Arc, Mutex};
+
+// ------------------------------------------------------------------ keys and certificates
+
+/// PKCS#8 v1 DER of an Ed25519 private key seed.
+pub fn pkcs8_ed25519(seed: &[u8; 32]) -> Vec<u8> {
+    let mut der = hex::decode("302e020100300506032b657004220420").unwrap();
+    der.extend_from_slice(seed);
+    der
+}
+
+pub fn ed_keypair(seed: &[u8; 32]) -> rcgen::KeyPair {
+    let der = PrivateKeyDer::Pkcs8(pkcs8_ed25519(seed).into());
+    rcgen::KeyPair::from_der_and_sign_algo(&der, &rcgen::PKCS_ED25519).expect("ed25519 key")
+}
+
+pub fn ed_public(seed: &[u8; 32]) -> [u8; 32] {
+    super::peer_id_of_seed(seed).0
+}
+
+#[derive(Clone, Copy, Debug, Serialize, Deserialize, PartialEq, Eq, Hash)]
+pub enum Validity {
+    Valid,
+    Expired,
+    NotYetValid,
+}
+
+fn params(names: &[String], validity: Validity) -> rcgen::CertificateParams {
+    let mut p = rcgen::CertificateParams::new(names.to_vec()).expect("names");
+    match validity {
+        Validity::Valid => {}
+        Validity::Expired => {
+            p.not_before = rcgen::date_time_ymd(2001, 1, 1);
+            p.not_after = rcgen::date_time_ymd(2002, 1, 1);
+        }
+        Validity::NotYetValid => {
+            p.not_before = rcgen::date_time_ymd(2999, 1, 1);
+            p.not_after = rcgen::date_time_ymd(3000, 1, 1);
+        }
+    }
+    p
+}
+
+/// A self-signed Ed25519 certificate exactly like the ones anemo generates.
+pub fn self_signed(seed: &[u8; 32], names: &[String], validity: Validity) -> Vec<u8> {
+    params(names, validity)
+        .self_signed(&ed_keypair(seed))
+        .expect("self signed")
+        .der()
+        .to_vec()
+}
+
+/// A certificate whose subject public key is `subject_seed`'s but which is signed by
+/// `issuer_seed`'s key (rcgen `signed_by`).
+pub fn signed_by_other(subject_seed: &[u8; 32], issuer_seed: &[u8; 32], names: &[String]) -> Vec<u8> {
+    let issuer_key = ed_keypair(issuer_seed);
+    let issuer = params(names, Validity::Valid).self_signed(&issuer_key).expect("issuer");
+    params(names, Validity::Valid)
+        .signed_by(&ed_keypair(subject_seed), &issuer, &issuer_key)
+        .expect("signed_by")
+        .der()
+        .to_vec()
+}
+
+/// Self-signed ECDSA P-256 certificate (not an Ed25519 identity at all). Returns (cert, pkcs8).
+pub fn ecdsa_self_signed(names: &[String]) -> (Vec<u8>, Vec<u8>) {
+    let kp = rcgen::KeyPair::generate_for(&rcgen::PKCS_ECDSA_P256_SHA256).expect("ecdsa");
+    let cert = params(names, Validity::Valid).self_signed(&kp).expect("ecdsa cert");
+    (cert.der().to_vec(), kp.serialize_der())
+}
+
+/// Take `signer_seed`'s self-signed certificate, splice `victim_pub` into its SPKI and re-sign
+/// the TBS with `signer_seed`'s key: a well-formed certificate naming the victim's key that the
+/// victim never signed.
+pub fn spki_spliced_resigned(victim_pub: &[u8; 32], signer_seed: &[u8; 32], names: &[String]) -> Vec<u8> {
+    use x509_parser::prelude::FromDer;
+    let mut der = self_signed(signer_seed, names, Validity::Valid);
+    let own_pub = ed_public(signer_seed);
+    let pos = der.windows(32).position(|w| w == own_pub).expect("own key in cert");
+    der[pos..pos + 32].copy_from_slice(victim_pub);
+    let (tbs_range, sig_range) = {
+        let (_, cert) = x509_parser::certificate::X509Certificate::from_der(&der).expect("parse spliced");
+        let tbs = cert.tbs_certificate.as_ref();
+        let start = tbs.as_ptr() as usize - der.as_ptr() as usize;
+        let sig = cert.signature_value.data.as_ref();
+        let sstart = sig.as_ptr() as usize - der.as_ptr() as usize;
+        ((start, start + tbs.len()), (sstart, sstart + sig.len()))
+    };
+    let kp = ring::signature::Ed25519KeyPair::from_seed_unchecked(signer_seed).unwrap();
+    let sig = kp.sign(&der[tbs_range.0..tbs_range.1]);
+    der[sig_range.0..sig_range.1].copy_from_slice(sig.as_ref());
+    der
+}
+
+// ------------------------------------------------------------------ signing keys without checks
+
+#[derive(Clone, Debug, Serialize, Deserialize, PartialEq, Eq, Hash)]
+pub enum SignerKind {
+    /// a real Ed25519 key (any key: rustls does not check it against the certificate)
+    Ed25519([u8; 32]),
+    /// 64 bytes of junk labelled ED25519
+    Junk,
+    /// a valid Ed25519 signature but over a different message
+    OtherMessage([u8; 32]),
+    /// an ECDSA P-256 key (pkcs8)
+    #[serde(with = "crate::hexbytes")]
+    EcdsaP256(Vec<u8>),
+    /// a real Ed25519 signature labelled with another scheme id
+    Mislabelled([u8; 32]),
+}
+
+#[derive(Debug)]
+pub struct AdvKey(pub SignerKind);
+
+#[derive(Debug)]
+struct AdvSigner(SignerKind);
+
+impl SigningKey for AdvKey {
+    fn choose_scheme(&self, _offered: &[SignatureScheme]) -> Option<Box<dyn Signer>> {
+        // ignore what the peer offered: an adversary signs with whatever it likes
+        Some(Box::new(AdvSigner(self.0.clone())))
+    }
+    fn algorithm(&self) -> SignatureAlgorithm {
+        match self.0 {
+            SignerKind::EcdsaP256(_) => SignatureAlgorithm::ECDSA,
+            _ => SignatureAlgorithm::ED25519,
+        }
+    }
+}
+
+impl Signer for AdvSigner {
+    fn sign(&self, message: &[u8]) -> Result<Vec<u8>, rustls::Error> {
+        Ok(match &self.0 {
+            SignerKind::Ed25519(seed) | SignerKind::Mislabelled(seed) => {
+                ring::signature::Ed25519KeyPair::from_seed_unchecked(seed).unwrap().sign(message).as_ref().to_vec()
+            }
+            SignerKind::Junk => vec![0x5A; 64],
+            SignerKind::OtherMessage(seed) => {
+                ring::signature::Ed25519KeyPair::from_seed_unchecked(seed).unwrap().sign(b"another message").as_ref().to_vec()
+            }
+            SignerKind::EcdsaP256(pkcs8) => {
+                let rng = ring::rand::SystemRandom::new();
+                let kp = ring::signature::EcdsaKeyPair::from_pkcs8(&ring::signature::ECDSA_P256_SHA256_ASN1_SIGNING, pkcs8, &rng)
+                    .map_err(|_| rustls::Error::General("ecdsa key".into()))?;
+                kp.sign(&rng, message).map_err(|_| rustls::Error::General("ecdsa sign".into()))?.as_ref().to_vec()
+            }
+        })
+    }
+    fn scheme(&self) -> SignatureScheme {
+        match self.0 {
+            SignerKind::EcdsaP256(_) => SignatureScheme::ECDSA_NISTP256_SHA256,
+            SignerKind::Mislabelled(_) => SignatureScheme::RSA_PSS_SHA256,
+            _ => SignatureScheme::ED25519,
+        }
+    }
+}
+
+/// What a party presents in the handshake: any chain with any signer.
+#[derive(Clone, Debug, Serialize, Deserialize, PartialEq, Eq, Hash)]
+pub struct Presented {
+    #[serde(with = "hexchain")]
+    pub chain: Vec<Vec<u8>>,
+    pub signer: SignerKind,
+}
+
+mod hexchain {
+    use serde::{Deserialize, Deserializer, Serialize, Serializer};
+    pub fn serialize<S: Serializer>(b: &Vec<Vec<u8>>, s: S) -> Result<S::Ok, S::Error> {
+        b.iter().map(hex::encode).collect::<Vec<_>>().serialize(s)
+    }
+    pub fn deserialize<'de, D: Deserializer<'de>>(d: D) -> Result<Vec<Vec<u8>>, D::Error> {
+        let v = Vec::<String>::deserialize(d)?;
+        v.into_iter().map(|s| hex::decode(s).map_err(serde::de::Error::custom)).collect()
+    }
+}
+
+impl Presented {
+    pub fn honest(seed: &[u8; 32], name: &str) -> Self {
+        Presented {
+            chain: vec![self_signed(seed, &[name.to_string()], Validity::Valid)],
+            signer: SignerKind::Ed25519(*seed),
+        }
+    }
+    fn certified_key(&self) -> Arc<CertifiedKey> {
+        let chain = self.chain.iter().map(|c| CertificateDer::from(c.clone())).collect();
+        Arc::new(CertifiedKey::new(chain, Arc::new(AdvKey(self.signer.clone()))))
+    }
+}
+
+// ------------------------------------------------------------------ verifiers that accept anything and record
+
+pub type Recorded = Arc<Mutex<Vec<Vec<Vec<u8>>>>>;
+
+#[derive(Debug)]
+pub struct AcceptAny {
+    pub seen: Recorded,
+    pub require_client_cert: bool,
+}
+
+fn all_schemes() -> Vec<SignatureScheme> {
+    vec![
+        SignatureScheme::ED25519,
+        SignatureScheme::ECDSA_NISTP256_SHA256,
+        SignatureScheme::ECDSA_NISTP384_SHA384,
+        SignatureScheme::RSA_PSS_SHA256,
+        SignatureScheme::RSA_PSS_SHA384,
+        SignatureScheme::RSA_PSS_SHA512,
+        SignatureScheme::RSA_PKCS1_SHA256,
+    ]
+}
+
+impl ServerCertVerifier for AcceptAny {
+    fn verify_server_cert(&self, end_entity: &CertificateDer<'_>, intermediates: &[CertificateDer<'_>], _name: &ServerName<'_>, _ocsp: &[u8], _now: UnixTime) -> Result<ServerCertVerified, rustls::Error> {
+        let mut chain = vec![end_entity.as_ref().to_vec()];
+        chain.extend(intermediates.iter().map(|c| c.as_ref().to_vec()));
+        self.seen.lock().unwrap().push(chain);
+        Ok(ServerCertVerified::assertion())
+    }
+    fn verify_tls12_signature(&self, _m: &[u8], _c: &CertificateDer<'_>, _d: &DigitallySignedStruct) -> Result<HandshakeSignatureValid, rustls::Error> {
+        Ok(HandshakeSignatureValid::assertion())
+    }
+    fn verify_tls13_signature(&self, _m: &[u8], _c: &CertificateDer<'_>, _d: &DigitallySignedStruct) -> Result<HandshakeSignatureValid, rustls::Error> {
+        Ok(HandshakeSignatureValid::assertion())
+    }
+    fn supported_verify_schemes(&self) -> Vec<SignatureScheme> {
+        all_schemes()
+    }
+}
+
+impl ClientCertVerifier for AcceptAny {
+    fn offer_client_auth(&self) -> bool {
+        true
+    }
+    fn client_auth_mandatory(&self) -> bool {
+        self.require_client_cert
+    }
+    fn root_hint_subjects(&self) -> &[DistinguishedName] {
+        &[]
+    }
+    fn verify_client_cert(&self, end_entity: &CertificateDer<'_>, intermediates: &[CertificateDer<'_>], _now: UnixTime) -> Result<ClientCertVerified, rustls::Error> {
+        let mut chain = vec![end_entity.as_ref().to_vec()];
+        chain.extend(intermediates.iter().map(|c| c.as_ref().to_vec()));
+        self.seen.lock().unwrap().push(chain);
+        Ok(ClientCertVerified::assertion())
+    }
+    fn verify_tls12_signature(&self, _m: &[u8], _c: &CertificateDer<'_>, _d: &DigitallySignedStruct) -> Result<HandshakeSignatureValid, rustls::Error> {
+        Ok(HandshakeSignatureValid::assertion())
+    }
+    fn verify_tls13_signature(&self, _m: &[u8], _c: &CertificateDer<'_>, _d: &DigitallySignedStruct) -> Result<HandshakeSignatureValid, rustls::Error> {
+        Ok(HandshakeSignatureValid::assertion())
+    }
+    fn supported_verify_schemes(&self) -> Vec<SignatureScheme> {
+        all_schemes()
+    }
+}
+
+#[derive(Debug)]
+struct FixedClientCert(Option<Arc<CertifiedKey>>);
+impl rustls::client::ResolvesClientCert for FixedClientCert {
+    fn resolve(&self, _hints: &[&[u8]], _schemes: &[SignatureScheme]) -> Option<Arc<CertifiedKey>> {
+        self.0.clone()
+    }
+    fn has_certs(&self) -> bool {
+        self.0.is_some()
+    }
+}
+
+#[derive(Debug)]
+struct FixedServerCert(Arc<CertifiedKey>, Arc<Mutex<Vec<Option<String>>>>);
+impl rustls::server::ResolvesServerCert for FixedServerCert {
+    fn resolve(&self, hello: rustls::server::ClientHello<'_>) -> Option<Arc<CertifiedKey>> {
+        self.1.lock().unwrap().push(hello.server_name().map(str::to_string));
+        Some(self.0.clone())
+    }
+}
+
+fn provider() -> Arc<rustls::crypto::CryptoProvider> {
+    Arc::new(rustls::crypto::ring::default_provider())
+}
+
+pub fn transport() -> Arc<quinn::TransportConfig> {
+    let mut t = quinn::TransportConfig::default();
+    t.max_idle_timeout(Some(std::time::Duration::from_secs(30).try_into().unwrap()));
+    t.keep_alive_interval(Some(std::time::Duration::from_secs(5)));
+    Arc::new(t)
+}
+
+/// A dialer's config: presents `identity` (or no certificate), accepts and records whatever the
+/// server shows.
+pub fn client_config(identity: Option<&Presented>, seen: Recorded) -> quinn::ClientConfig {
+    let crypto = rustls::ClientConfig::builder_with_provider(provider())
+        .with_protocol_versions(&[&rustls::version::TLS13])
+        .unwrap()
+        .dangerous()
+        .with_custom_certificate_verifier(Arc::new(AcceptAny { seen, require_client_cert: false }))
+        .with_client_cert_resolver(Arc::new(FixedClientCert(identity.map(|i| i.certified_key()))));
+    let mut c = quinn::ClientConfig::new(Arc::new(quinn::crypto::rustls::QuicClientConfig::try_from(crypto).expect("quic client config")));
+    c.transport_config(transport());
+    c
+}
+
+/// A listener's config: presents `identity` whatever name is asked for, accepts and records any
+/// client certificate (or none when `require_client_cert` is false).
+pub fn server_config(identity: &Presented, require_client_cert: bool, seen: Recorded, sni_seen: Arc<Mutex<Vec<Option<String>>>>) -> quinn::ServerConfig {
+    let crypto = rustls::ServerConfig::builder_with_provider(provider())
+        .with_protocol_versions(&[&rustls::version::TLS13])
+        .unwrap()
+        .with_client_cert_verifier(Arc::new(AcceptAny { seen, require_client_cert }))
+        .with_cert_resolver(Arc::new(FixedServerCert(identity.certified_key(), sni_seen)));
+    let mut s = quinn::ServerConfig::with_crypto(Arc::new(quinn::crypto::rustls::QuicServerConfig::try_from(crypto).expect("quic server config")));
+    s.transport = transport();
+    s
+}
+
+/// A raw quinn endpoint bound on the fabric.
+pub fn raw_endpoint(fabric: &Arc<Fabric>, addr: SocketAddr, server: Option<quinn::ServerConfig>) -> std::io::Result<quinn::Endpoint> {
+    let sock = fabric.bind(addr)?;
+    quinn::Endpoint::new_with_abstract_socket(quinn::EndpointConfig::default(), server, sock, Arc::new(quinn::TokioRuntime))
+}
+
+// ------------------------------------------------------------------ speaking anemo by hand
+
+pub const ENDPOINT_CLOSED: &str = "endpoint closed";
+pub const PREAMBLE: [u8; 8] = [b'a', b'n', b'e', b'm', b'o', 0, 1, 0];
+
+/// Dial `addr` claiming `sni`; on TLS success also complete anemo's acknowledgement (read the
+/// 8-byte preamble the listener sends on a uni stream). `Ok` = admitted by the listener.
+pub async fn dial_and_await_ack(ep: &quinn::Endpoint, cfg: quinn::ClientConfig, addr: SocketAddr, sni: &str) -> Result<quinn::Connection, String> {
+    let connecting = ep.connect_with(cfg, addr, sni).map_err(|e| format!("connect: {e}"))?;
+    let conn = connecting.await.map_err(|e| format!("tls/quic: {e}"))?;
+    let mut uni = conn.accept_uni().await.map_err(|e| format!("no ack stream: {e}"))?;
+    let mut buf = [0u8; 8];
+    uni.read_exact(&mut buf).await.map_err(|e| format!("ack read: {e}"))?;
+    if buf != PREAMBLE {
+        return Err(format!("ack is {buf:02x?}"));
+    }
+    Ok(conn)
+}
+
+/// Accept one inbound connection and acknowledge it like an anemo listener does.
+pub async fn accept_and_ack(ep: &quinn::Endpoint) -> Result<quinn::Connection, String> {
+    let incoming = ep.accept().await.ok_or(ENDPOINT_CLOSED)?;
+    let conn = incoming.await.map_err(|e| format!("tls/quic: {e}"))?;
+    let mut uni = conn.open_uni().await.map_err(|e| format!("open uni: {e}"))?;
+    uni.write_all(&PREAMBLE).await.map_err(|e| format!("ack write: {e}"))?;
+    uni.finish().map_err(|e| format!("finish: {e}"))?;
+    let _ = uni.stopped().await;
+    Ok(conn)
+}
+
+/// Send raw bytes as one request stream and read the whole response.
+pub async fn raw_rpc(conn: &quinn::Connection, request: &[u8]) -> Result<Vec<u8>, String> {
+    let (mut tx, mut rx) = conn.open_bi().await.map_err(|e| format!("open_bi: {e}"))?;
+    tx.write_all(request).await.map_err(|e| format!("write: {e}"))?;
+    tx.finish().map_err(|e| format!("finish: {e}"))?;
+    rx.read_to_end(64 << 20).await.map_err(|e| format!("read: {e}"))
+}
